@@ -148,6 +148,10 @@ func init() {
 			if i%len(patchProfiles) >= 4 {
 				c.Feature("hostile_key_in_diff")
 			}
+			if i%8 == 7 {
+				a, b = gen.DeepChainPair(c.R, prof, false)
+				c.Feature("deep_chain_pairs")
+			}
 			c09Case(c, ref.ToJSON(a), ref.ToJSON(b), prof)
 		},
 	})
